@@ -24,7 +24,6 @@ registry is purged by target identity (id() reuse of collected classes / functio
 objects of a batch are kept alive until the batch ends.
 """
 import gc
-import itertools
 import json
 import multiprocessing
 import random
